@@ -158,6 +158,16 @@ V: List[Tuple[str, str, str, str, Any, Any, Optional[str]]] = [
     ("C19", "URL kwarg renamed on one side", "breaking", S + "dependencies.py", "            \"comp_cls_hash\": comp_cls._class_hash,", "            \"cls_hash\": comp_cls._class_hash,", "S3"),
     ("C19", "405 test after the lookup", "breaking", S + "dependencies.py", "    if req.method != \"GET\":\n        return HttpResponseNotAllowed([\"GET\"])\n\n    if script_type not in _CONTENT_TYPES:\n        return HttpResponseNotFound()\n\n    comp_cls = comp_hash_mapping.get(comp_cls_hash)", "    if script_type not in _CONTENT_TYPES:\n        return HttpResponseNotFound()\n\n    comp_cls = comp_hash_mapping.get(comp_cls_hash)\n    if req.method != \"GET\":\n        return HttpResponseNotAllowed([\"GET\"])\n", "S4"),
     ("C19", "kind validation dropped", "breaking", S + "dependencies.py", "    if script_type not in _CONTENT_TYPES:\n        return HttpResponseNotFound()\n\n    comp_cls = comp_hash_mapping", "    comp_cls = comp_hash_mapping", "S4"),
+    ("C19", "input css urls fed from the js list", "breaking", S + "dependencies.py", "            css={\"all\": [*to_load_component_css_urls, *to_load_input_css_urls]},", "            css={\"all\": [*to_load_component_css_urls, *to_load_input_js_urls]},", "S11"),
+    ("C19", "loaded js urls handed to the css wire key", "breaking", S + "dependencies.py", "        loaded_css_urls=loaded_css_urls,\n    )", "        loaded_css_urls=loaded_js_urls,\n    )", "S11"),
+    ("C19", "css placeholder replaced by the js tags", "breaking", S + "dependencies.py", "            replacement = css_replacement\n", "            replacement = js_replacement\n", "S11"),
+    ("C19", "url list built under the other kind's test", "breaking", S + "dependencies.py", "                to_load_css_urls.append(get_script_url(\"css\", comp_cls, input_hash))", "                to_load_css_urls.append(get_script_url(script_type, comp_cls, input_hash))\n            if script_type == \"js\":\n                to_load_css_urls.append(get_script_url(script_type, comp_cls, input_hash))", "S11"),
+    ("C19", "kind passed as the tested variable", "preserving", S + "dependencies.py", "                to_load_css_urls.append(get_script_url(\"css\", comp_cls, input_hash))", "                to_load_css_urls.append(get_script_url(script_type, comp_cls, input_hash))", None),
+    ("C19", "media lists built in temporaries", "preserving", S + "dependencies.py", "    all_medias = [\n", "    _unused_note = None\n    all_medias = [\n", None),
+    ("C19", "endpoint serves registered classes only", "breaking", S + "dependencies.py", "    if comp_cls is None:\n        return HttpResponseNotFound()", "    if comp_cls is None or not getattr(comp_cls, \"_registered\", False):\n        return HttpResponseNotFound()", "S12"),
+    ("C19", "404 test written with the emission predicate", "preserving", S + "dependencies.py", "    if script is None:\n        return HttpResponseNotFound()", "    if script is None or not is_nonempty_str(script):\n        return HttpResponseNotFound()", None),
+    ("C19", "middleware rebuilds the response without the status", "breaking", S + "dependencies.py", "            response.content = render_dependencies(response.content, type=\"document\")\n\n        return response", "            new_response = HttpResponse(render_dependencies(response.content, type=\"document\"))\n            return new_response\n\n        return response", "S13"),
+    ("C19", "middleware rebuilds the response and copies the status", "preserving", S + "dependencies.py", "            response.content = render_dependencies(response.content, type=\"document\")\n\n        return response", "            new_response = HttpResponse(render_dependencies(response.content, type=\"document\"), status=response.status_code)\n            return new_response\n\n        return response", None),
     ("C19", "comment", "preserving", S + "dependencies.py", "    script = get_script_content(script_type, comp_cls, input_hash)\n    if script is None:", "    script = get_script_content(script_type, comp_cls, input_hash)  # from the media cache\n    if script is None:", None),
 ]
 
